@@ -485,16 +485,19 @@ def barrier_client(rng, idx, msgb, delay):
     """one process with 2-4 connections made one after the other (neighbours in the daemon's client list) which fail or close
     back to back, so that the daemon finds several dead clients in one pass of its loop; repeated a few times"""
     m, T = msgb, msgb.T
-    svc = rng.choice([pref.VPS, pref.WSS625, pref.CC625, pref.VPS | pref.WSS625])
+    svc = rng.choice([0, pref.VPS, pref.WSS625, pref.CC625, pref.VPS | pref.WSS625])
     creq = m.raw(T['CONNECT_REQ'], m.connect_req(svc, name=b'multi%d' % idx)).hex()
     ops = []
-    for rep in range(rng.choice([4, 5, 6, 8])):
+    for rep in range(rng.choice([3, 4, 5, 6])):
         n = rng.choice([2, 2, 3, 3, 4])
         ops.append(['C', n, creq, {'t': 'CONNECT_REQ', 'benign': True, 'services': svc}])
         ops.append(['R', rng.choice([10, 30, 80])])
         ent, kinds = [], []
         for i in range(n):
-            k = rng.choice(['close', 'close', 'close_req', 'wrong_state', 'daemon_type', 'unknown_type', 'refused_len', 'keep'])
+            # a refused or misplaced message is noticed in the very pass that reads it; an EOF often only in a later one
+            # (the daemon does not read from a client it has frames to write to), so plain closes are the minority
+            k = rng.choice(['close', 'close_req', 'close_req', 'wrong_state', 'wrong_state', 'daemon_type', 'daemon_type', 'unknown_type',
+                            'refused_len', 'keep'])
             if k == 'keep' and (i == 0 or kinds.count('keep')):
                 k = 'close'
             kinds.append(k)
@@ -594,7 +597,7 @@ def gen_c19(rng, tier, skip, msgb):
         clients += more
     elif barrier_case:
         case['kind'] = 'barrier'
-        total = max(total, 2200)
+        total = max(total, 1900)
         for w in clients:
             w['ops'][-2] = ['T', total]
         clients.append(barrier_client(rng, 0, msgb, rng.choice([150, 250])))
@@ -602,7 +605,7 @@ def gen_c19(rng, tier, skip, msgb):
             clients.append(barrier_client(rng, 1, msgb, rng.choice([160, 400, 700])))
         if rng.random() < 0.5:
             # somebody who connects afterwards must still be served
-            clients.append({'kind': 'lib', 'name': 'late', 'delay_ms': rng.choice([1200, 1900]),
+            clients.append({'kind': 'lib', 'name': 'late', 'delay_ms': rng.choice([1000, 1600]),
                             'ops': [['C', services(rng, allow_unsupported=False), 0, 5, 0], ['R', 20], ['D']]})
         if rng.random() < 0.3:
             clients.append(fz.client(5))
